@@ -5,7 +5,8 @@
    that are used against the implementation:
      - session_is_map_of_stateless_exports   the answers are the map of [sop_answer] over (fields before the call, call);
      - session_app / session_nth_answer      the answer of a call depends on the earlier calls only through the fields;
-     - pure_export_keeps_fields              wif / wif_key / wif_private / wif_public / HDKey.wif without child_index /
+     - pure_export_keeps_fields              wif / wif_key / wif_private / wif_public / HDKey.wif with any arguments
+                                             (child_index included, since fixes/C03-8) /
                                              as_hex / as_bytes / int / encrypt / address() leave the fields alone, so
                                              repeating them, or calling them with other prefixes first, changes nothing;
      - the default-argument exporters are the ones the round-trip theorems are about (lib_wif, lib_xkey).
@@ -37,8 +38,6 @@ Lemma lib_xkey_with_own_values pubser oc k want :
   lib_xkey pubser oc k want.
 Proof.
   unfold lib_xkey_with, lib_xkey, xk_prefix, xk_child, xk_witness, xk_multisig, xk_want.
-  assert (C : (if km_child k =? 0 then km_child k else km_child k) = km_child k) by (destruct (km_child k =? 0); reflexivity).
-  rewrite C.
   assert (W : (if String.eqb (km_witness k) "" then
                  (if String.eqb (km_witness k) "" then default_witness else km_witness k) else km_witness k) =
               (if String.eqb (km_witness k) "" then default_witness else km_witness k))
@@ -55,10 +54,10 @@ Variable pubser : bool.
 Variable oc : bytes -> bool.
 
 Notation answer := (sop_answer pubser oc).
-Notation step := (sop_step oc).
+Notation step := sop_step.
 Notation run := (session pubser oc).
-Notation states := (session_states oc).
-Notation final := (session_final oc).
+Notation states := session_states.
+Notation final := session_final.
 
 Lemma session_is_map s ops :
   run s ops = map (fun p => answer (fst p) (snd p)) (combine (states s ops) ops).
@@ -92,21 +91,18 @@ Proof. intros E. rewrite !session_nth_answer, E. reflexivity. Qed.
 (* ------------------------------------------------------------------ calls that leave the fields alone *)
 Definition pure_export (op : sop) : bool :=
   match op with
-  | SWif _ | SHex _ | SBytes _ | SInt | SOpaque | SAddr None => true
-  | SXkey _ None _ _ _ | SXkey _ (Some 0) _ _ _ => true
+  | SWif _ | SXkey _ _ _ _ _ | SHex _ | SBytes _ | SInt | SOpaque | SAddr None => true
   | _ => false
   end.
+
+Lemma xkey_export_is_pure isp child prefix wt ms : pure_export (SXkey isp child prefix wt ms) = true.
+Proof. reflexivity. Qed.
 
 Lemma pure_export_keeps_fields s op : pure_export op = true -> step s op = s.
 Proof.
   destruct op as [p|isp child prefix wt ms|name| |c|private|private| |]; cbn [pure_export]; intros H; try discriminate;
     try reflexivity.
-  - cbn [sop_step].
-    destruct (negb (km_constructible oc (ss_km s))); [reflexivity|].
-    destruct (find_network (km_network (ss_km s))); [|reflexivity].
-    destruct (xk_prefix (ss_km s) n isp prefix wt ms); [|reflexivity].
-    destruct child as [c|]; [|reflexivity]. destruct c; try discriminate. reflexivity.
-  - destruct c; [discriminate | reflexivity].
+  destruct c; [discriminate | reflexivity].
 Qed.
 
 Lemma pure_exports_keep_fields s ops : forallb pure_export ops = true -> final s ops = s.
@@ -122,6 +118,12 @@ Lemma export_after_pure_exports s ops op rest d :
   forallb pure_export ops = true ->
   nth (length ops) (run s (ops ++ op :: rest)) d = answer s op.
 Proof. intros H. rewrite session_nth_answer, (pure_exports_keep_fields s ops H). reflexivity. Qed.
+
+(* hk.wif(child_index=c) then hk.wif_private(): the second answer carries the object's own child number *)
+Lemma xkey_after_explicit_child s isp c prefix wt ms want :
+  run s [SXkey isp (Some c) prefix wt ms; SXkey (Some want) None None None None] =
+  [AText (lib_xkey_with pubser oc (ss_km s) isp (Some c) prefix wt ms); AText (lib_xkey pubser oc (ss_km s) want)].
+Proof. cbn [session sop_answer sop_step]. rewrite lib_xkey_with_default. reflexivity. Qed.
 
 (* k.wif(prefix=p) then k.wif(): the second answer is the plain WIF of the current fields *)
 Lemma wif_after_explicit_prefix s p :
@@ -148,10 +150,6 @@ Definition key_material (k : keymeta) := (km_pubc k, km_pubu k, km_compressed k,
 Lemma step_keeps_key_material s op : key_material (ss_km (step s op)) = key_material (ss_km s).
 Proof.
   destruct op as [p|isp child prefix wt ms|name| |c|private|private| |]; cbn [sop_step]; try reflexivity.
-  - destruct (negb (km_constructible oc (ss_km s))); [reflexivity|].
-    destruct (find_network (km_network (ss_km s))); [|reflexivity].
-    destruct (xk_prefix (ss_km s) n isp prefix wt ms); [|reflexivity].
-    destruct child as [c|]; [|reflexivity]. destruct (c =? 0); reflexivity.
   - destruct (network_defined name); reflexivity.
   - destruct c; reflexivity.
 Qed.
@@ -159,7 +157,7 @@ Qed.
 Lemma session_keeps_key_material s ops : key_material (ss_km (final s ops)) = key_material (ss_km s).
 Proof.
   revert s. induction ops as [|op r IH]; intros s; [reflexivity|]. unfold session_final. cbn [fold_left].
-  fold (session_final oc (step s op) r). rewrite IH. apply step_keeps_key_material.
+  fold (session_final (step s op) r). rewrite IH. apply step_keeps_key_material.
 Qed.
 
 (* the secret is either still there, unchanged, or gone (public()) *)
@@ -168,10 +166,6 @@ Lemma step_secret s op :
   km_private (ss_km (step s op)) = false.
 Proof.
   destruct op as [p|isp child prefix wt ms|name| |c|private|private| |]; cbn [sop_step]; try (left; split; reflexivity).
-  - destruct (negb (km_constructible oc (ss_km s))); [left; split; reflexivity|].
-    destruct (find_network (km_network (ss_km s))); [|left; split; reflexivity].
-    destruct (xk_prefix (ss_km s) n isp prefix wt ms); [|left; split; reflexivity].
-    destruct child as [c|]; [|left; split; reflexivity]. destruct (c =? 0); left; split; reflexivity.
   - destruct (network_defined name); left; split; reflexivity.
   - right. reflexivity.
   - destruct c; left; split; reflexivity.
